@@ -57,4 +57,13 @@ PROPS = {
         "trusted": ["the lungo collection engine under the bucket (its own properties C01..C17)", "gridfs.UploadBufferSize and DefaultChunkSize read from source and passed to the model"],
         "assumptions": ["single goroutine per stream (mutexes not modelled)"],
     },
+    "C13": {
+        "props_modules": ["Lungo.Props.C13"],
+        "audit_files": ["Lungo/Audit/C13.lean"],
+        "tie_modules": [],
+        "streams": [("sort", 15000), ("distinct", 15000)],
+        "thorough_mult": 40,
+        "trusted": ["sort.SliceStable = the unique stable sort (sort_unique shows List.mergeSort loses nothing)", "sort.Slice inside Collect is only observed modulo Compare = 0"],
+        "assumptions": ["int64 payloads in range (V.i64Ok) for transitivity of the order"],
+    },
 }
